@@ -2,12 +2,11 @@
    Proved for every 32-bit word and every buffer: a boolean other than 0/1 is InvalidBoolean;
    an optional-data marker other than 0/1 is UnknownOptionVariant(marker); an enum word that is
    the value of no member is UnknownVariant(word), and the word of a member selects that
-   member; a string that is not UTF-8 is NonUtf8String.  PARTIAL: arm selection of unions
-   (every label of a fall-through group, constants, enum members, TRUE/FALSE, default) is the
-   semantics Sem.eval_arms/matches of the emitted patterns, tied to the code by K2 + K3 and
-   searched on every declared label; it is a theorem only as part of the C01 round trip.
+   member; a string that is not UTF-8 is NonUtf8String.  Union arm selection and the rejection of undeclared discriminants are theorems about the
+   emitted match arms (Sem.eval_arms / matches: what rustc makes of each pattern text), for
+   every specification satisfying sup; that model is tied to the code by K2 + K3.
    Proofs in XdrProofs.RuntimeProofs / XdrProofs.MiscProofs. *)
-From XdrProofs Require Import MiscProofs.
+From XdrProofs Require Import MiscProofs MoreProofs.
 Open Scope N_scope.
 Open Scope list_scope.
 
@@ -56,6 +55,38 @@ Proof.
   intros a o d rest l max H1 H2 H3. rewrite read_string_app by assumption. now rewrite H3.
 Qed.
 Print Assumptions C06_non_utf8_string.
+
+(* every declared discriminant -- each label of a fall-through group, named constants, enum
+   members, TRUE/FALSE, the default -- selects, among the match arms the emitter writes,
+   exactly the arm the specification assigns to it (arm_for is the RFC reading of the union) *)
+Theorem C06_arm_selection :
+  forall (A : ast) (md : module_ir), gen A = EOk md -> sup A ->
+  forall (u : union_t) (d : xval) (dd : dval),
+    union_ok A u -> disc_ok A u -> TypedB A (disc_type A u) d -> dval_of (rv 0 0 d) = Some dd ->
+    forall dv disc arms fb variant ty,
+      emit_from_body A (TUnion u) = EOk (BUnion dv disc arms fb) ->
+      arm_for A u d = Some (variant, ty) ->
+      exists payload, selects md arms fb dd variant payload /\
+                      match ty with
+                      | Some t => exists e, payload = Some e /\ decode_array A t UseAlias = EOk e
+                      | None => payload = None
+                      end.
+Proof. exact sel_union. Qed.
+Print Assumptions C06_arm_selection.
+
+(* a discriminant that no label declares, in a union without default, is rejected with
+   UnknownVariant(d as i32) *)
+Theorem C06_union_unknown_rejected :
+  forall (A : ast) (md : module_ir), gen A = EOk md -> sup A ->
+  forall n u dv disc arms fb d dd rec lf self s,
+    get_type A n = Some (TUnion u) ->
+    emit_from_body A (TUnion u) = EOk (BUnion dv disc arms fb) ->
+    TypedB A (disc_type A u) d -> dval_of (rv 0 0 d) = Some dd ->
+    arm_for A u d = None ->
+    exists z, dval_as_i32 md dd = Some z /\
+              eval_arms md rec lf self dd arms fb s = Err (UnknownVariant z) s.
+Proof. exact union_unknown_rejected. Qed.
+Print Assumptions C06_union_unknown_rejected.
 
 (* F7, repaired by 9bc96ab: a bare TRUE/FALSE label was a binding pattern that matched every
    discriminant; as the emitter now writes it, `false` does not match the word 1 *)
